@@ -228,3 +228,81 @@ def check_grading_end(prog, report):
                  'wrong nodes)',
                  construct='_init_elems: unconditional tabulation')
     report.floor('R-grading-end', 12)
+
+
+def check_evaluate_vector(prog, report):
+    """R-passthrough (C07): evaluate_vector is evaluate, element by element,
+    at the time and the parameter it was given: neither argument is rebound
+    (a wrap modulo the curve length maps the far end of an open curve onto
+    its start), the Cartesian point is gamma(x_hat) of the same parameter,
+    and entry j belongs to the j-th leaf."""
+    fi = prog.func(SL, 'SingleLayerOperator.evaluate_vector')
+    fn = fi.node
+    t, xh = fi.params[1], fi.params[2]
+    rebound = sorted({n.id for n in ast.walk(fn) if isinstance(n, ast.Name)
+                      and isinstance(n.ctx, (ast.Store, ast.Del))
+                      and n.id in (t, xh)})
+    report.check(not rebound, 'R-passthrough', 'evaluate_vector arguments',
+                 fi.where(),
+                 'the time and the curve parameter reach evaluate as they '
+                 'were given; rebound: %s' % rebound,
+                 construct='evaluate_vector: arguments rebound')
+    calls = [n for n in ast.walk(fn) if isinstance(n, ast.Call)
+             and text(n.func) == 'self.evaluate']
+    if len(calls) != 1 or calls[0].keywords or len(calls[0].args) != 4:
+        raise AnalysisError('%s: the one call self.evaluate(elem, t, x_hat, '
+                            'x) was not found' % fi.where())
+    c = calls[0]
+    single = {}
+    for n in ast.walk(fn):
+        if isinstance(n, ast.Assign) and len(n.targets) == 1 and isinstance(
+                n.targets[0], ast.Name):
+            single.setdefault(n.targets[0].id, []).append(n.value)
+
+    def resolve(e):
+        k = 0
+        while isinstance(e, ast.Name) and len(single.get(e.id, ())) == 1 \
+                and k < 5:
+            e = single[e.id][0]
+            k += 1
+        return text(e).replace(' ', '')
+
+    okp = text(c.args[1]) == t and text(c.args[2]) == xh and resolve(
+        c.args[3]) == 'self.mesh.gamma_space.eval(%s)' % xh
+    report.check(okp, 'R-passthrough', 'evaluate_vector point', fi.where(c),
+                 'evaluate receives (elem, t, x_hat, gamma(x_hat)) with the '
+                 'Cartesian point computed from the same parameter; got '
+                 '(%s)' % ', '.join(text(a) for a in c.args),
+                 construct='evaluate_vector: point')
+    loop = None
+    for n in ast.walk(fn):
+        if isinstance(n, ast.For) and any(m is c for m in ast.walk(n)):
+            loop = n
+    if loop is None:
+        raise AnalysisError('%s: element loop not found' % fi.where())
+    it = loop.iter
+    oki = False
+    if isinstance(it, ast.Call) and text(it.func) == 'enumerate' and len(
+            it.args) == 1 and not it.keywords and isinstance(
+                loop.target, ast.Tuple) and len(loop.target.elts) == 2:
+        j, e = (text(x) for x in loop.target.elts)
+        src = resolve(it.args[0])
+        store = [s for s in loop.body if isinstance(s, ast.Assign)
+                 and s.value is c]
+        oki = (src in ('list(self.mesh.leaf_elements)',
+                       'self.mesh.leaf_elements')
+               and text(c.args[0]) == e and len(store) == 1
+               and isinstance(store[0].targets[0], ast.Subscript)
+               and text(store[0].targets[0].slice) == j)
+        if oki:
+            vec = text(store[0].targets[0].value)
+            oki = any(isinstance(s, ast.Return) and s.value is not None
+                      and text(s.value) == vec for s in fn.body)
+    else:
+        raise AnalysisError('%s: element loop is not `for j, elem in '
+                            'enumerate(...)`' % fi.where(loop))
+    report.check(oki, 'R-passthrough', 'evaluate_vector indexing',
+                 fi.where(loop),
+                 'entry j of the returned vector is the value for the j-th '
+                 'leaf of the mesh', construct='evaluate_vector: indexing')
+    report.floor('R-passthrough', 3)
